@@ -3,6 +3,8 @@ use vstd::prelude::*;
 use vstd::bytes::*;
 verus! {
 
+global size_of usize == 8;
+
 // ------------------------------------------------------------------------------------ frames
 pub uninterp spec fn crc32_spec(data: Seq<u8>, frame_type: u8) -> u32;
 
@@ -274,6 +276,88 @@ pub proof fn lemma_rec_step_progress(blocks: Seq<Seq<u8>>, p: RdPos, within: boo
         _ => {}
     }
 }
+
+// ------------------------------------------------------------------------------------ queues (C05)
+pub open spec fn pred_le(p: u64) -> spec_fn((u64, Seq<u8>)) -> bool { |r: (u64, Seq<u8>)| r.0 <= p }
+pub open spec fn pred_gt(p: u64) -> spec_fn((u64, Seq<u8>)) -> bool { |r: (u64, Seq<u8>)| r.0 > p }
+
+/// in a sequence whose first k records are <= p and the others > p, filtering is taking / skipping k
+pub proof fn lemma_split_filter(recs: Seq<(u64, Seq<u8>)>, p: u64, k: int)
+    requires
+        0 <= k <= recs.len(),
+        forall|j: int| 0 <= j < k ==> (#[trigger] recs[j]).0 <= p,
+        forall|j: int| k <= j < recs.len() ==> (#[trigger] recs[j]).0 > p,
+    ensures
+        recs.filter(pred_le(p)) =~= recs.take(k),
+        recs.filter(pred_gt(p)) =~= recs.skip(k),
+    decreases recs.len(),
+{
+    reveal(Seq::filter);
+    if recs.len() > 0 {
+        let r2 = recs.drop_last();
+        if k == recs.len() {
+            lemma_split_filter(r2, p, k - 1);
+            assert(r2.take(k - 1) =~= r2);
+            assert(r2.push(recs.last()) =~= recs);
+            assert(recs.take(k) =~= recs);
+        } else {
+            lemma_split_filter(r2, p, k);
+            assert(r2.take(k) =~= recs.take(k));
+            assert(r2.skip(k).push(recs.last()) =~= recs.skip(k));
+        }
+    }
+}
+
+/// One queue: where it starts and its retained records (position, payload) in order.
+pub struct QView { pub start: u64, pub recs: Seq<(u64, Seq<u8>)> }
+
+impl QView {
+    pub open spec fn empty_at(p: u64) -> QView { QView { start: p, recs: Seq::empty() } }
+    /// next position: one past the last record, or `start` for an empty queue
+    pub open spec fn next(self) -> int {
+        if self.recs.len() == 0 { self.start as int } else { self.recs.last().0 + 1 }
+    }
+    pub open spec fn last_position(self) -> Option<u64> {
+        if self.next() >= 1 { Some((self.next() - 1) as u64) } else { None }
+    }
+    /// positions strictly increasing, not before `start`, and `next` representable
+    pub open spec fn wf(self) -> bool {
+        &&& forall|i: int, j: int| 0 <= i < j < self.recs.len() ==> self.recs[i].0 < self.recs[j].0
+        &&& forall|i: int| 0 <= i < self.recs.len() ==> self.start <= (#[trigger] self.recs[i]).0 < u64::MAX
+        &&& self.next() <= u64::MAX
+    }
+    pub open spec fn payload_bytes(self) -> int
+        decreases self.recs.len(),
+    {
+        if self.recs.len() == 0 { 0 } else {
+            QView { start: self.start, recs: self.recs.drop_last() }.payload_bytes() + self.recs.last().1.len()
+        }
+    }
+    /// sequential spec of an append at an explicit position `pos >= next` (C05: positions may jump
+    /// forward; a never-used queue at 0 starts at the first appended position)
+    pub open spec fn append(self, pos: u64, payload: Seq<u8>) -> QView {
+        QView {
+            start: if self.start == 0 && self.recs.len() == 0 { pos } else { self.start },
+            recs: self.recs.push((pos, payload)),
+        }
+    }
+    /// number of records at or below p
+    pub open spec fn count_upto(self, p: u64) -> int {
+        self.recs.filter(pred_le(p)).len() as int
+    }
+    /// sequential spec of truncate(..=p): removes exactly the records <= p; an emptied queue moves to p+1;
+    /// a position below `start` changes nothing
+    pub open spec fn truncate(self, p: u64) -> QView {
+        if p < self.start { self }
+        else if p + 1 >= self.next() { QView { start: (p + 1) as u64, recs: Seq::empty() } }
+        else { QView { start: (p + 1) as u64, recs: self.recs.filter(pred_gt(p)) } }
+    }
+    pub open spec fn truncate_count(self, p: u64) -> int {
+        if p < self.start { 0 } else { self.count_upto(p) }
+    }
+}
+
+pub type LogView = Map<Seq<char>, QView>;
 
 // ------------------------------------------------------------------------------------ WAL entries
 /// abstract WAL entry: kind code (on-disk type byte), queue name, position field, body
